@@ -67,6 +67,8 @@ func genArgs(cmd, opt string) []string {
 		a = append(a, "--skip-support")
 	case "exclude_main":
 		a = append(a, "--exclude-main")
+	case "impl_package":
+		a = append(a, "--implementation-package", "scratch/regen/impl")
 	}
 	return a
 }
